@@ -597,148 +597,93 @@ func ruleSelectionTable(c *Ctx, r *Report, rule string, bp *bindParts) {
 }
 
 func ruleBindParse(c *Ctx, r *Report, rule string, spec *langSpec) {
-	r.rule(rule, 8, "bind statement words: selectors 1/first/last/all and targets struct/slice map to their constants, the default selector is 'one', ':all' needs a slice target, anything else is a compile error")
-	_, fd := c.find("bindStmt")
-	if fd == nil {
-		r.bad(rule, "bindStmt", "function not found", "")
+	r.rule(rule, 8, "bind statement words, read off the compiler's diagnostic-free paths (token texts are followed through every comparison, helper and table): each selector word (none, 1, first, last, all) and target word (struct, slice) yields the option byte target|selector of the documented constants; ':all' needs a slice target; a path on which the selector or target word is none of the documented ones emits nothing")
+	m, err := c.emitModel()
+	if err != nil {
+		r.bad(rule, "model", err.Error(), "")
 		return
+	}
+	e := m.Entries["decl"]
+	if e == nil {
+		r.bad(rule, "decl", "no analysis entry for decl", "")
+		return
+	}
+	pos := ""
+	if e.Decl != nil {
+		pos = c.pos(e.Decl.Pos())
+	}
+	for _, u := range e.Undecided {
+		r.undecided(rule, "decl", u, pos)
 	}
 	sels := constsOfType(c.Bcl, "bindSelector")
 	if v, ok := pkgConstInt(c.Bcl, "bindAll"); ok {
 		sels = append(sels, namedConst{Name: "bindAll", Val: v})
 	}
 	tgts := constsOfType(c.Bcl, "bindTarget")
-	got := map[string]string{}
-	defaults := map[string]bool{}
-	// bindStmt and the helpers it was split into (module functions that are no compiler primitives)
-	bodies := []ast.Node{fd.Body}
-	seenHelper := map[*ast.FuncDecl]bool{fd: true}
-	for qi := 0; qi < len(bodies) && qi < 8; qi++ {
-		walkCalls(bodies[qi], false, func(call *ast.CallExpr) {
-			fn, ok := c.callee(call).(*types.Func)
-			if !ok || fn.Pkg() == nil || fn.Pkg().Path() != bclPath {
-				return
+	val := func(cs []namedConst, name string) int64 {
+		for _, k := range cs {
+			if k.Name == name {
+				return k.Val
 			}
-			if _, prim := emitPrims[qname(fn)]; prim {
-				return
-			}
-			if hd := c.funcDecls[fn]; hd != nil && hd.Body != nil && !seenHelper[hd] {
-				seenHelper[hd] = true
-				bodies = append(bodies, hd.Body)
-			}
-		})
+		}
+		return -1
 	}
-	inspectAll := func(f func(ast.Node) bool) {
-		for _, b := range bodies {
-			ast.Inspect(b, f)
-		}
-	}
-	inspectAll(func(n ast.Node) bool {
-		sw, ok := n.(*ast.SwitchStmt)
-		if !ok || sw.Tag == nil || c.fieldPath(sw.Tag) != "<parser>.prev.val" {
-			return true
-		}
-		for _, a := range c.switchArms(sw) {
-			val := "?"
-			isErr := false
-			for _, s := range a.Body {
-				if as, ok := s.(*ast.AssignStmt); ok && len(as.Rhs) == 1 {
-					if k, isC := c.intConst(as.Rhs[0]); isC {
-						switch typeShort(c.typeOf(as.Lhs[0])) {
-						case "bindSelector":
-							val = constNameOf(sels, k)
-						case "bindTarget":
-							val = constNameOf(tgts, k)
-						}
-					}
-				}
-				if es, ok := s.(*ast.ExprStmt); ok {
-					if call, ok := es.X.(*ast.CallExpr); ok && c.calleeName(call) == "parser.error" {
-						isErr = true
-					}
-				}
-			}
-			if a.Default {
-				defaults[fmt.Sprint(len(defaults))] = isErr
-			}
-			for _, v := range a.Vals {
-				if v != nil {
-					s, _ := c.strConst(a.Exprs[0])
-					_ = s
-					got[strings.Trim(v.ExactString(), `"`)] = val
-				}
-			}
-		}
-		return true
-	})
+	// expected table
+	want := map[string]string{}
+	selWords := map[string]string{"": "One"}
 	for w, k := range spec.BindSel {
-		if w == "1" {
+		selWords[w] = k
+	}
+	for sw, sk := range selWords {
+		for tw, tk := range spec.BindTgt {
+			if sk == "All" && tk != "Slice" {
+				continue
+			}
+			key := tw
+			if sw != "" {
+				key = sw + "," + tw
+			}
+			want[key] = fmt.Sprint(val(tgts, "bind"+tk)&0xF0 | val(sels, "bind"+sk)&0x0F)
+		}
+	}
+	got := map[string]string{}
+	for _, o := range e.Outcomes {
+		if o.LastOp != "opBIND" {
 			continue
 		}
-		r.check(got[w] == "bind"+k, rule, "selector/"+w, "bind"+k, fmt.Sprintf("selector word %q maps to %s, documented bind%s", w, got[w], k), c.pos(fd.Pos()))
-	}
-	for w, k := range spec.BindTgt {
-		r.check(got[w] == "bind"+k, rule, "target/"+w, "bind"+k, fmt.Sprintf("target word %q maps to %s, documented bind%s", w, got[w], k), c.pos(fd.Pos()))
-	}
-	for w := range got {
-		_, s := spec.BindSel[w]
-		_, t := spec.BindTgt[w]
-		if !s && !t {
-			r.bad(rule, "word/"+w, "undocumented bind word "+w, c.pos(fd.Pos()))
-		}
-	}
-	allErr := len(defaults) >= 2
-	for _, e := range defaults {
-		allErr = allErr && e
-	}
-	r.check(allErr, rule, "unknown-words", "unknown selector and target words are compile errors", "unknown selector/target words must raise a compile error", c.pos(fd.Pos()))
-	// "1": match(tINT) with text "1"; default selector bindOne; all needs slice
-	one, defaultOne, allSlice := false, false, false
-	inspectAll(func(n ast.Node) bool {
-		switch n := n.(type) {
-		case *ast.IfStmt:
-			if be, ok := stripParens(n.Cond).(*ast.BinaryExpr); ok {
-				if be.Op == token.NEQ && c.fieldPath(be.X) == "<parser>.prev.val" {
-					if s, isS := c.strConst(be.Y); isS && s == "1" {
-						for _, st := range n.Body.List {
-							if es, ok := st.(*ast.ExprStmt); ok {
-								if call, ok := es.X.(*ast.CallExpr); ok && c.calleeName(call) == "parser.error" {
-									one = true
-								}
-							}
-						}
-					}
-				}
-				if be.Op == token.LAND {
-					l, ok1 := stripParens(be.X).(*ast.BinaryExpr)
-					rr, ok2 := stripParens(be.Y).(*ast.BinaryExpr)
-					if ok1 && ok2 {
-						k1, c1 := c.intConst(l.Y)
-						k2, c2 := c.intConst(rr.Y)
-						if c1 && c2 && l.Op == token.EQL && rr.Op == token.NEQ && constNameOf(sels, k1) == "bindAll" && constNameOf(tgts, k2) == "bindSlice" {
-							for _, st := range n.Body.List {
-								if es, ok := st.(*ast.ExprStmt); ok {
-									if call, ok := es.X.(*ast.CallExpr); ok && c.calleeName(call) == "parser.error" {
-										allSlice = true
-									}
-								}
-							}
-						}
-					}
-				}
-			}
-		case *ast.AssignStmt:
-			if n.Tok == token.DEFINE && len(n.Rhs) == 1 {
-				if k, isC := c.intConst(n.Rhs[0]); isC && typeShort(c.typeOf(n.Lhs[0])) == "bindSelector" && constNameOf(sels, k) == "bindOne" {
-					defaultOne = true
-				}
+		adv := 0
+		for _, t := range o.Trace {
+			if t == "adv" {
+				adv++
 			}
 		}
-		return true
-	})
-	r.check(one, rule, "selector/1", "an integer selector other than 1 is a compile error", "an integer selector other than `1` must be a compile error", c.pos(fd.Pos()))
-	r.check(defaultOne, rule, "selector/default", "no selector means 'one'", "without a selector the bind must select 'one'", c.pos(fd.Pos()))
-	r.check(allSlice, rule, "all-needs-slice", "':all' with a non-slice target is a compile error", "`:all` with a target other than slice must be a compile error", c.pos(fd.Pos()))
+		nWords := 0
+		if o.Words != "" {
+			nWords = strings.Count(o.Words, ",") + 1
+		}
+		// bind TYPE [: SEL] -> TARGET: 4 tokens with one word known (the target), 6 with two
+		if !((adv == 4 && nWords == 1) || (adv == 6 && nWords == 2)) {
+			r.bad(rule, "unknown-words", fmt.Sprintf("a diagnostic-free path compiles a bind statement of %d tokens knowing only the words [%s]: an undocumented selector or target word is accepted", adv, o.Words), pos)
+			continue
+		}
+		if prev, dup := got[o.Words]; dup && prev != o.BindByte {
+			got[o.Words] = prev + "|" + o.BindByte
+		} else {
+			got[o.Words] = o.BindByte
+		}
+	}
+	for _, key := range sortedKeys(want) {
+		kind := "target/" + key
+		if strings.Contains(key, ",") {
+			kind = "selector+target/" + key
+		}
+		r.check(got[key] == want[key], rule, kind, "option byte "+want[key], fmt.Sprintf("bind words [%s] compile to option byte %q, documented %s (target | selector)", key, got[key], want[key]), pos)
+	}
+	for _, key := range sortedKeys(got) {
+		if _, ok := want[key]; !ok {
+			r.bad(rule, "word/"+key, fmt.Sprintf("undocumented bind words [%s] are accepted (option byte %s)", key, got[key]), pos)
+		}
+	}
 }
 
 func checkC04(c *Ctx, r *Report) {
